@@ -326,8 +326,20 @@ func (t *streamableHTTPClientTransport) send(
 		return nil, fmt.Errorf("%w: %v", ErrResponseParsing, err)
 	}
 
+	// The body must answer THIS request: its id has to be the request's id. (An error raised before the
+	// server could read the id may carry a null or no id.)
+	respID, hasID := jsonResp["id"]
+	_, hasError := jsonResp["error"]
+	if hasID && respID != nil {
+		if requestIDKey(respID) != requestIDKey(req.ID) {
+			return nil, fmt.Errorf("%w: response id %v does not match request id %v", ErrResponseParsing, respID, req.ID)
+		}
+	} else if !hasError {
+		return nil, fmt.Errorf("%w: response carries no id (request id %v)", ErrResponseParsing, req.ID)
+	}
+
 	// Check if this is an error response
-	if _, hasError := jsonResp["error"]; hasError {
+	if hasError {
 		// Return the raw error response for error handling
 		rawMessage := json.RawMessage(respBytes)
 		return &rawMessage, nil
